@@ -1837,17 +1837,16 @@ theorem heapExt_step (w : World K) (op : Op K) (hs : op.safe = true) : HeapExt w
       · exact heapExt_refl w
       · split
         · exact heapExt_refl w
-        · split_ifs
+        · split
           · exact heapExt_refl w
           · split
             · exact heapExt_refl w
-            · split
+            · split_ifs
               · exact heapExt_refl w
-              · split_ifs
+              · exact heapExt_refl w
+              · split
                 · exact heapExt_refl w
-                · split
-                  · exact heapExt_refl w
-                  · exact heapExt_append _ _ _ rfl
+                · exact heapExt_append _ _ _ rfl
 
 /-- a frame id that may be stored: in the heap and not the buffer of a live field -/
 def World.Private (w : World K) (id : Nat) : Prop :=
@@ -2112,23 +2111,22 @@ theorem inv_step (w : World K) (op : Op K) (hs : op.safe = true) (h : w.Inv) : (
       · exact h
       · split
         · exact h
-        · split_ifs
+        · split
           · exact h
           · split
             · exact h
-            · split
+            · split_ifs
               · exact h
-              · split_ifs
+              · exact h
+              · split
                 · exact h
-                · split
-                  · exact h
-                  · next s' hs' =>
-                    apply inv_push_store _ s' (inv_heap_grow w _ h)
-                    intro id hid
-                    unfold construct at hs'
-                    split_ifs at hs'
-                    cases hs'
-                    exact private_fresh w _ h id (by simpa using hid)
+                · next s' hs' =>
+                  apply inv_push_store _ s' (inv_heap_grow w _ h)
+                  intro id hid
+                  unfold construct at hs'
+                  split_ifs at hs'
+                  cases hs'
+                  exact private_fresh w _ h id (by simpa using hid)
 
 theorem getElem?_set_other {α : Type} (l : List α) (i j : Nat) (a : α) (h : i ≠ j) :
     (l.set i a)[j]? = l[j]? := List.getElem?_set_ne h
@@ -2285,17 +2283,16 @@ theorem stores_step_other (w : World K) (op : Op K) (sid : Nat) (s : Store K Nat
       · exact hs
       · split
         · exact hs
-        · split_ifs
+        · split
           · exact hs
           · split
             · exact hs
-            · split
+            · split_ifs
               · exact hs
-              · split_ifs
+              · exact hs
+              · split
                 · exact hs
-                · split
-                  · exact hs
-                  · exact push _
+                · exact push _
 
 /-- what a reader sees of a storage depends only on the storage object and on the content of
 its (private) buffers -/
@@ -2791,17 +2788,16 @@ theorem allwf_step (w : World K) (op : Op K) (h : w.AllWF) : (step w op).1.AllWF
       · exact h
       · split
         · exact h
-        · split_ifs
+        · split
           · exact h
           · split
             · exact h
-            · split
+            · split_ifs
               · exact h
-              · split_ifs
+              · exact h
+              · split
                 · exact h
-                · split
-                  · exact h
-                  · next s' hs' => exact allwf_push _ s' h (wf_construct _ _ _ _ s' hs' (by simp))
+                · next s' hs' => exact allwf_push _ s' h (wf_construct _ _ _ _ s' hs' (by simp))
 
 theorem allwf_run (ops : List (Op K)) : ∀ w : World K, w.AllWF → (run w ops).AllWF := by
   induction ops with
